@@ -50,6 +50,15 @@ theorem field_order :
 theorem deletion_depth_guard (d : Nat) : Circuit.deletionDepthOk d = true ↔ d ≤ 31 := by
   simp [Circuit.deletionDepthOk]
 
+/-- **every construction path compiles with the same field, the same builder and no compile
+options**: `BuildR1CS*` (setup, R1CS export) and `Import*Setup` (key import) all call
+`frontend.Compile(ecc.BN254.ScalarField(), r1cs.NewBuilder, <circuit>)` with nothing after the
+circuit, so the constraint system cannot depend on the path through an option. -/
+theorem compile_calls_uniform :
+    Gen.compileCalls.map (·.1) = ["BuildR1CSDeletion", "BuildR1CSInsertion", "ImportDeletionSetup", "ImportInsertionSetup"]
+    ∧ Gen.compileCalls.all (fun c => c.2.take 2 == ["ecc.BN254.ScalarField()", "r1cs.NewBuilder"] && c.2.length == 3) = true := by
+  decide
+
 theorem modes : Gen.insertionMode = "insertion" ∧ Gen.deletionMode = "deletion" := by decide
 
 end Smtb.Properties.C12
@@ -61,3 +70,4 @@ end Smtb.Properties.C12
 #print axioms Smtb.Properties.C12.field_order
 #print axioms Smtb.Properties.C12.deletion_depth_guard
 #print axioms Smtb.Properties.C12.modes
+#print axioms Smtb.Properties.C12.compile_calls_uniform
